@@ -296,7 +296,8 @@ func (fc *fnCtx) pureFacts(ce *callee, con *Contract, args []Val, res []Val) {
 		return
 	}
 	fc.pureDone[key] = true
-	if fc.depth > 3 {
+	if fc.depth > 3 || fc.inQuant > 0 {
+		delete(fc.pureDone, key)
 		return
 	}
 	fc.depth++
@@ -324,7 +325,7 @@ func (fc *fnCtx) pureFacts(ce *callee, con *Contract, args []Val, res []Val) {
 	}
 	f := Imp(And(pre...), And(facts...))
 	if f != "true" {
-		fc.sc.Axiom(f)
+		fc.sc.Axiom(f, Sym("f!"+ce.name))
 	}
 }
 
